@@ -2001,32 +2001,31 @@ impl ConfigState {
             }
         }
 
-        for ((cluster_id, backend_id), res) in diff_map(
-            self.backends.iter().flat_map(|(cluster_id, v)| {
+        // Backends are identified by (cluster, backend id, address): one id may
+        // sit at several addresses, so the id alone is not a key.
+        let my_backends: BTreeMap<(&ClusterId, &String, SocketAddr), &Backend> = self
+            .backends
+            .iter()
+            .flat_map(|(cluster_id, v)| {
                 v.iter()
-                    .map(move |backend| ((cluster_id, &backend.backend_id), backend))
-            }),
-            other.backends.iter().flat_map(|(cluster_id, v)| {
+                    .map(move |backend| ((cluster_id, &backend.backend_id, backend.address), backend))
+            })
+            .collect();
+        let their_backends: BTreeMap<(&ClusterId, &String, SocketAddr), &Backend> = other
+            .backends
+            .iter()
+            .flat_map(|(cluster_id, v)| {
                 v.iter()
-                    .map(move |backend| ((cluster_id, &backend.backend_id), backend))
-            }),
+                    .map(move |backend| ((cluster_id, &backend.backend_id, backend.address), backend))
+            })
+            .collect();
+
+        for (key, res) in diff_map(
+            my_backends.iter().map(|(k, v)| (*k, *v)),
+            their_backends.iter().map(|(k, v)| (*k, *v)),
         ) {
-            match res {
-                DiffResult::Added => {
-                    let backend = other
-                        .backends
-                        .get(cluster_id)
-                        .and_then(|v| v.iter().find(|b| &b.backend_id == backend_id))
-                        .unwrap();
-                    v.push(RequestType::AddBackend(backend.clone().to_add_backend()).into());
-                }
-                DiffResult::Removed => {
-                    let backend = self
-                        .backends
-                        .get(cluster_id)
-                        .and_then(|v| v.iter().find(|b| &b.backend_id == backend_id))
-                        .unwrap();
-
+            if matches!(res, DiffResult::Removed | DiffResult::Changed) {
+                if let Some(backend) = my_backends.get(&key) {
                     v.push(
                         RequestType::RemoveBackend(RemoveBackend {
                             cluster_id: backend.cluster_id.clone(),
@@ -2036,28 +2035,10 @@ impl ConfigState {
                         .into(),
                     );
                 }
-                DiffResult::Changed => {
-                    let backend = self
-                        .backends
-                        .get(cluster_id)
-                        .and_then(|v| v.iter().find(|b| &b.backend_id == backend_id))
-                        .unwrap();
-
-                    v.push(
-                        RequestType::RemoveBackend(RemoveBackend {
-                            cluster_id: backend.cluster_id.clone(),
-                            backend_id: backend.backend_id.clone(),
-                            address: SocketAddress::from(backend.address),
-                        })
-                        .into(),
-                    );
-
-                    let backend = other
-                        .backends
-                        .get(cluster_id)
-                        .and_then(|v| v.iter().find(|b| &b.backend_id == backend_id))
-                        .unwrap();
-                    v.push(RequestType::AddBackend(backend.clone().to_add_backend()).into());
+            }
+            if matches!(res, DiffResult::Added | DiffResult::Changed) {
+                if let Some(backend) = their_backends.get(&key) {
+                    v.push(RequestType::AddBackend((*backend).clone().to_add_backend()).into());
                 }
             }
         }
